@@ -310,7 +310,7 @@ Update after the lead committed the three fixes (/repo cd62b20 = 8386d63 + cc3e7
    19 stay open: 15 payload-substitution classes keyed (format, class, kind) - the key covers the outcome set
    {Fault, Garbage, Hang} because which one occurs is incidental - plus ao/al tbl.name subst -> Fault,
    al member.tbl.length subst -> Fault and al member.numSect subst -> Fault (a class that APPEARED with cc3e710: genuine,
-   deterministic; candidate fixes hooks/fix-C17-unused-table-entries.diff and hooks/fix-C17-archive-member-extent.diff,
+   deterministic; candidate fixes hooks/fix-C17-unused-table-entries.diff and hooks/candidate-C17-archive-member-extent.diff,
    with both the quick tier shows no violation and one finding fewer).
  * determinism: seeds 1, 2, 3, 5, 99 and 20261004 -> exit 0 with the identical set of 19 KNOWN-FINDING lines; the same seed
    twice -> identical.  The .fm quick sample now has a seed-independent base (24 offsets per token class) besides the
